@@ -158,4 +158,54 @@ def run(ctx):
     ctx.ob(rule, fi, bool(seen.get("none")) and all(seen["none"]), "parse_union with parsefrom None ends at the common start (one final seek back)", key="parse_union end none")
     ctx.ob(rule, fi, bool(seen.get("selected")) and all(seen["selected"]),
            "parse_union with a selected member never seeks back to the start at the end, and seeks to the recorded `forward` unless the selected member has the size of the last member (where the stream already stands)", key="parse_union end selected")
-    ctx.floor(rule, 6)
+    union_index(ctx, rule, fi)
+    ctx.floor(rule, 9)
+
+
+def union_index(ctx, rule, fi):
+    """The generation-time index of the selected member is a position in self.subcons -- the list the emitter enumerates -- of the member the interpreter selects."""
+    from ..core import Ctx
+    subs_src = "self.subcons"
+    loops = [n for n in ast.walk(fi.node) if isinstance(n, ast.For) and isinstance(n.iter, ast.Call) and ast.unparse(n.iter) == "enumerate(%s)" % subs_src
+             and isinstance(n.target, ast.Tuple) and isinstance(n.target.elts[0], ast.Name)]
+    sel = None
+    for lp in loops:
+        iv = lp.target.elts[0].id
+        for n in ast.walk(lp):
+            if isinstance(n, ast.Compare) and len(n.ops) == 1 and isinstance(n.ops[0], ast.Eq):
+                names = [x for x in (n.left, n.comparators[0]) if isinstance(x, ast.Name)]
+                if len(names) == 2 and iv in (names[0].id, names[1].id):
+                    sel = names[0].id if names[1].id == iv else names[1].id
+    if sel is None:
+        raise AnalysisError("anchor vanished: Union._emitparse no longer compares the member loop index with a selected index")
+    SELF = ("param", "self")
+    subs, pf = ("attr", SELF, "subcons"), ("attr", SELF, "parsefrom")
+    seen = {}
+    for st in ast.walk(fi.node):
+        if not (isinstance(st, ast.Assign) and len(st.targets) == 1 and isinstance(st.targets[0], ast.Name) and st.targets[0].id == sel):
+            continue
+        guard = None
+        par = getattr(st, "_parent", None)
+        while par is not None and guard is None:
+            if isinstance(par, ast.If) and isinstance(par.test, ast.Call) and ast.unparse(par.test.func) == "isinstance" and ast.unparse(par.test.args[0]) == "self.parsefrom":
+                guard = ast.unparse(par.test.args[1])
+            par = getattr(par, "_parent", None)
+        m = control_model("def f(self):\n    return " + ast.unparse(st.value) + "\n")
+        c2 = Ctx("C09", ctx.tier, m.root, model=m)
+        ps = paths_of(c2, m.function("f"))
+        t = N.canon_lids(ps[0].retval) if len(ps) == 1 and ps[0].retval is not None else None
+        if guard == "int":
+            ok, what = t == pf, "an integer parsefrom is itself the index into self.subcons"
+        elif guard == "str":
+            el = ("elem", subs, 0)
+            ok = bool(t) and t[0] == "sub" and t[2] == pf and t[1][0] == "comp" and t[1][1] == "dict" and t[1][2] == ("kv", ("attr", el, "name"), ("idx", 0)) \
+                and len(t[1][3]) == 1 and t[1][3][0][0] == ("call", ("free", "enumerate"), (subs,), ()) and t[1][3][0][1] in ((), (("attr", el, "name"),))
+            what = "a string parsefrom is looked up in {member.name: position in self.subcons}, positions counted over all members (anonymous ones included) -- the list the member loop enumerates"
+        elif guard == "type(None)":
+            ok, what = bool(t) and N.is_int(t) and t[2] < 0, "no member is selected when parsefrom is None (index outside the loop's range)"
+        else:
+            ok, what = False, "selected index assigned under an unrecognised guard %r" % guard
+        seen[guard] = True
+        ctx.ob(rule, fi, ok, "Union._emitparse: %s (got %s)" % (what, N.show(t) if t else "?"), key="parse_union index %s" % guard, node=st)
+    if set(seen) != {"int", "str", "type(None)"}:
+        ctx.ob(rule, fi, False, "Union._emitparse decides the selected index for None, int and str parsefrom (found %s)" % sorted(map(str, seen)), key="parse_union index cases")
